@@ -497,7 +497,12 @@ def run_for(ctx, pid):
             jobs.append(('commit', 'revert-commit-' + m_.group(2), pid, m_.group(2)))
     tjobs = [(pid, m, q) for m, q in TWIN_FUNCS.get(pid, [])]
     # behaviour-preserving refactors made for this property by fresh agents (benign/<pid>-b<n>): must stay silent
-    bjobs = [(pid, os.path.basename(b), os.path.join(b, 'patch.diff')) for b in sorted(glob.glob(os.path.join(HERE, 'benign', pid + '-b*')))]
+    known_alarms = {}
+    ka = os.path.join(HERE, 'benign', 'KNOWN_ALARMS.json')
+    if os.path.exists(ka):
+        known_alarms = json.load(open(ka))
+    bjobs = [(pid, os.path.basename(b), os.path.join(b, 'patch.diff')) for b in sorted(glob.glob(os.path.join(HERE, 'benign', pid + '-[a-z]*')))
+             if os.path.basename(b) not in known_alarms]
     with ThreadPoolExecutor(12) as ex:
         mres = list(ex.map(_mutant_job, jobs))
         tres = list(ex.map(_twin_job, tjobs)) + list(ex.map(_benign_job, bjobs))
